@@ -9,6 +9,8 @@
 #include <algorithm>
 
 namespace sim {
+bool g_debug_explain = false;   // SIM_DEBUG_EXPLAIN: every invocation gets -d explain (debugging a replay only)
+
 
 static std::string Dirname(const std::string& p) {
   size_t s = p.rfind('/');
@@ -369,9 +371,27 @@ ChildPlan World::OnSpawn(Kernel& kk, const std::string& cmd, bool console) {
   // commands finishing meanwhile the log is open again and a replacement loses their records -
   // a limit of the design, not of the implementation)
   bool restat_log = s.generator && !s.regen && prof->generator_restats_log && r.plan.j == 1 && !r.plan.jobserver && !r.plan.editor && !editor_ever && tape->Choice(st_stream, 3) == 1;   // (`-t restat` hides an edit made while a command ran: no editor then)
-  eff.fn = [self, scp, outs, sv, snap, rsp_content, rs, hidden, status, fail_mode, myseq, restat, restat_log](Kernel& k2, Child& c) {
+  // a tidy command: it ends by removing every empty directory of the tree (`find -type d -empty
+  // -delete`), among them directories ninja made earlier in this invocation for commands that
+  // failed or whose depfile it has consumed since.  Only in -j1 builds: nothing else is between
+  // "ninja made my directories" and "I wrote into them" at that moment.
+  bool prune_dirs = prof->prune_empty_dirs && !s.regen && r.plan.j == 1 && !r.plan.jobserver && tape->Choice(st_stream, 5) == 1;
+  eff.fn = [self, scp, outs, sv, snap, rsp_content, rs, hidden, status, fail_mode, myseq, restat, restat_log, prune_dirs](Kernel& k2, Child& c) {
     bool partial = c.killed || (status != 0 && fail_mode == 2);
     bool none = status != 0 && fail_mode == 0 && !c.killed;
+    if (prune_dirs && !c.killed) {
+      for (bool again = true; again;) {
+        again = false;
+        for (auto it = k2.fs.nodes.begin(); it != k2.fs.nodes.end();) {
+          bool empty_dir = it->second->kind == Inode::kDir && it->first != "/w" && it->first != "/";
+          if (empty_dir) {
+            auto nx = k2.fs.nodes.lower_bound(it->first + "/");
+            if (nx != k2.fs.nodes.end() && nx->first.compare(0, it->first.size() + 1, it->first + "/") == 0) empty_dir = false;
+          }
+          if (empty_dir) { it = k2.fs.nodes.erase(it); again = true; self->stats->n["empty_dirs_pruned"]++; } else ++it;
+        }
+      }
+    }
     if (none) return;
     // a manifest generator replaces build.ninja atomically or not at all
     if (sv.regen && (partial || status != 0)) return;
@@ -531,7 +551,7 @@ InvRecord World::RunInvocation(const InvPlan& plan) {
   if (plan.dry) a.push_back("-n");
   if (plan.verbose) a.push_back("-v");
   if (plan.quiet) a.push_back("--quiet");
-  if (plan.explain) { a.push_back("-d"); a.push_back("explain"); }
+  if (plan.explain || g_debug_explain) { a.push_back("-d"); a.push_back("explain"); }
   if (plan.keeprsp) { a.push_back("-d"); a.push_back("keeprsp"); }
   if (plan.keepdepfile) { a.push_back("-d"); a.push_back("keepdepfile"); }
   ProcSpec sp;
